@@ -72,6 +72,8 @@ func main() {
 		err = traceCLI(o)
 	case "bytes":
 		err = traceBytes(o)
+	case "fields":
+		err = traceFields(o)
 	case "http":
 		err = traceHTTP(o)
 	case "fs":
